@@ -12,6 +12,7 @@ directory slot counts, limits, out-of-range times) and `fat`.
 -/
 import PyFatModel.Proofs.FatMachine
 import PyFatModel.Gen.Arith
+import PyFatModel.Proofs.FsRun
 
 open Model.Alloc Model.FatMachine Proofs.FatRep
 
@@ -41,5 +42,35 @@ theorem c09_date_rejected_iff (y m d : Int) :
   omega
 
 example : step (params 12) 4 ⟨[4088, 4095, 3, 4095], 2, [[2, 3]]⟩ (.allocNew 1) = none := by decide
+
+/-! ## the filesystem level (`Model.Fs`) -/
+
+/-- **a call that ends in out-of-space changes nothing**: in any state satisfying the invariant (every
+    reachable state), whatever the call and wherever in it the allocation fails — first allocation of
+    makedir, growth of the parent directory after the new directory's cluster was already taken, a full
+    fixed root directory, growth of a file — the tree, the sizes and the cluster chains of all entries
+    are exactly as before, and the invariant holds, so every later call starts from a sound state.
+    The half-done states that `_remove`, `__write` and `truncate` would leave if their directory
+    rewrite failed are unreachable (`Proofs.FsInv.updateDir_of_fits`). -/
+theorem c09_fs_failed_call_changes_nothing (v : Model.Fs.Vol) (count : Nat) (hv : Proofs.FsInv.VolOK v count)
+    (s : Model.Fs.St) (h : Proofs.FsInv.Inv v count s) (op : Model.Fs.Op)
+    (hfail : Proofs.FsRefine.Soft (Model.Fs.step v s op).2) :
+    (Model.Fs.step v s op).1.nodes = s.nodes ∧ (Model.Fs.step v s op).1.rootChain = s.rootChain ∧
+      Proofs.FsInv.Inv v count (Model.Fs.step v s op).1 :=
+  let g := Proofs.FsInv.step_good hv h op
+  ⟨(g.2 hfail).1, (g.2 hfail).2, g.1⟩
+
+/-- whenever the reference filesystem leaves its state as it is (every refused call: wrong kind, missing,
+    exists, not empty, root), so does the model -/
+theorem c09_fs_refused_call_same_tree (v : Model.Fs.Vol) (count : Nat) (hv : Proofs.FsInv.VolOK v count)
+    (s : Model.Fs.St) (h : Proofs.FsInv.Inv v count s) (op : Model.Fs.Op) (hdom : Proofs.FsRefine.InDomain s op)
+    (hsame : (Model.Fs.specStep (Model.Fs.abs s) op).1 = Model.Fs.abs s) :
+    Model.Fs.abs (Model.Fs.step v s op).1 = Model.Fs.abs s := by
+  have := (Proofs.FsRun.step_sim hv h op hdom).1
+  rw [this]
+  unfold Proofs.FsRun.specFollow
+  split
+  · rfl
+  · exact hsame
 
 end Props.C09
